@@ -107,7 +107,7 @@ Fixpoint integrity_loop (fuel : nat) (c : dcfg) (a : api) (seq : N) : api * N * 
 Definition api_step (a : api) (o : aop) : api * ares :=
   let c := a_cfg a in
   match o with
-  | AReset bs c' => (mkapi (let s := reset_state (a_s a) in mkst bs 0 0 (s_cur s) (s_crc s) (s_ts s) (s_lto s) (s_defs s) (s_devidx s) (s_fdescs s)
+  | AReset bs c' => (mkapi (let s := reset_state (a_s a) in mkst bs 0 (if public_reset_clears_n then 0 else s_n s) (s_cur s) (s_crc s) (s_ts s) (s_lto s) (s_defs s) (s_devidx s) (s_fdescs s)
                                                        (s_acc s) (s_fileid s) (s_header s) (s_msgs s) []) None false c' bs, RUnit)
   | ASeekStart =>
       (* the reader is rewound; whatever the read buffer still holds stays in front of it *)
